@@ -12,7 +12,7 @@ implementation returns.* Neither side is a Lean object: rten's kernels are Rust,
 implementation exists in the sandbox. What is done instead:
 
 * `Model/OnnxRef.lean` + `Model/OnnxRefRun.lean`: an executable reference of the integer / index
-  semantics of ~75 operators, written from the specification text (trusted base);
+  semantics of about 60 operators, written from the specification text (trusted base);
 * the harness compares rten with that reference EXACTLY on single-operator ONNX models;
 * the theorems below are *specification-validating laws*: facts every correct reading of the ONNX text
   must satisfy, proved for ALL shapes / ranks / values, so that the oracle is not trusted blindly.
